@@ -9,6 +9,13 @@ MSG_INV = ["InvIff", "InvValue", "InvNestedDup", "Emit"]
 MAP_INV = ["InvIff", "InvValue", "InvDup", "Emit"]
 
 JOBS = {
+    "C19": [
+        {"module": "MC_Builder", "spec": "Spec", "invariants": ["InvIvPiv", "InvBuiltProtNoOrig", "InvReserved", "InvFrame", "Emit"],
+         "quick": {"constants": {"MaxLen": 2}, "timeout": 300},
+         "thorough": {"constants": {"MaxLen": 3}, "timeout": 3000},
+         "rule": "every call sequence up to MaxLen over the method palette of each of the 14 builders (key: 6 constructors); each state = one "
+                 "history, replayed from new() and built; non-trivial = at least one call"},
+    ],
     "C17": [
         {"module": "MC_Classify", "spec": "Spec", "invariants": ["InvPlain", "InvPriv", "InvPrivRange", "InvNoPrivAssigned", "InvBack", "Emit"],
          "quick": {"timeout": 300}, "thorough": {"timeout": 1200},
